@@ -29,6 +29,12 @@ GInit ==
   /\ added = StartDisk(Base(start))
   /\ last = Reply("init", "-", "yes", "-")
 
+\* How the abstract identifiers are rendered as 64-bit flight identifiers on the real store: as themselves, or as
+\* neighbours around a 19-digit composite key (consecutive integers that a float64 cannot tell apart).  Lookup
+\* is by exact identifier whatever the rendering; one rendering per behaviour, spread over the behaviours
+\* (the harness replays the lookup family under both).
+IdRenderings == <<"small", "wide">>
+IdRendering == IdRenderings[((Len(added) + Len(hist) + start) % 2) + 1]
 Rec == [ev |-> last', n |-> Len(added'), ix |-> indexable']
 GNext == Next /\ hist' = Append(hist, Rec) /\ UNCHANGED start
 GSpec == GInit /\ [][GNext]_gvars
@@ -103,10 +109,10 @@ FamNext == IF Len(hist) < Len(Prologue(start)) THEN Do(Prologue(start)[Len(hist)
 FNext == FamNext /\ hist' = Append(hist, Rec) /\ UNCHANGED start
 FSpec == GInit /\ [][FNext]_gvars
 FEmit == IF Len(hist) < Len(Prologue(start)) + D THEN TRUE
-         ELSE PrintT("@@" \o ToJson([h |-> hist, start |-> Base(start), flavour |-> Flavour(start), added |-> added, disk |-> disk,
+         ELSE PrintT("@@" \o ToJson([h |-> hist, start |-> Base(start), flavour |-> Flavour(start), idr |-> IdRendering, added |-> added, disk |-> disk,
                                       open |-> (mode # "closed"), exists |-> exists])) /\ FALSE
 
-Out == [h |-> hist, start |-> start, flavour |-> Flavour(start), added |-> added, disk |-> disk, open |-> (mode # "closed"), exists |-> exists]
+Out == [h |-> hist, start |-> start, flavour |-> Flavour(start), idr |-> IdRendering, added |-> added, disk |-> disk, open |-> (mode # "closed"), exists |-> exists]
 Emit == IF Len(hist) < D THEN TRUE
         ELSE PrintT("@@" \o ToJson(Out)) /\ FALSE
 =============================================================================
